@@ -6,9 +6,12 @@
    loader_accepts evs = the emulator's stream loader (monotone int64 clocks)
    pre n evs          = spec scanner over the ORIGINAL stream: clocks never decrease outside region
                         bodies, a body event is never later than its OU], the stream does not end
-                        inside a region, clocks fit int64, and for every non-empty region
+                        inside a region, and for every non-empty region
                           |body| + #{earlier events (OU[ included) with clock >= min body clock} + 2 <= n
                         (the ring keeps n-1 events; the destination must be STRICTLY older).
+                        All clocks are compared as uint64 (cmp_ev too since /repo f327c17); pre only
+                        records that a clock IS a uint64 (0 <= clock < 2^64), true of every decoded file.
+                        Only the emulator's loader needs clocks < 2^63 (clk_ok).
 
    One clause of the property is false for the faithful model and for the real tool
    (C16_idempotent_refuted); the check replays it.  (A second one, failure on a stream without
@@ -31,13 +34,14 @@ Print Assumptions C16_succeeds.
 
 (* The postconditions, without reference to ssort: same events (bytes are carried by the events),
    non-decreasing clocks, equal-clock order preserved, everything before the earliest out-of-order
-   position untouched, same number of events and same total byte size, check mode passes, the
-   emulator's loader accepts. *)
+   position untouched, same number of events and same total byte size, check mode passes, and the
+   emulator's loader accepts provided the clocks fit int64 (stream_step reads them as int64). *)
 Theorem C16_postconditions : forall n evs out,
   pre n evs -> winsort n evs = Some out ->
   Permutation evs out /\ sorted out /\ stable evs out /\ prefix_untouched evs out /\
   length out = length evs /\ total_size out = total_size evs /\
-  check_mode out = true /\ loader_accepts out = true.
+  check_mode out = true /\
+  (Forall (fun e => clk_ok e = true) evs -> loader_accepts out = true).
 Proof. exact winsort_post. Qed.
 Print Assumptions C16_postconditions.
 
@@ -64,7 +68,7 @@ Print Assumptions C16_idempotent_refuted.
 
 (* any sorted stream (markers or not): a successful run leaves it as it is *)
 Theorem C16_sorted_input_unchanged : forall n l out,
-  sorted l -> Forall (fun e => clk_ok e = true) l -> winsort n l = Some out -> out = l.
+  sorted l -> winsort n l = Some out -> out = l.
 Proof. exact winsort_sorted_input. Qed.
 Print Assumptions C16_sorted_input_unchanged.
 
@@ -112,6 +116,12 @@ Example C16_ex_again : winsort 18 ex1_out = Some ex1_out /\ check_mode ex1_out =
 Proof. exact ex1_again. Qed.
 Example C16_ex_too_small : preb 17 ex1 = false /\ winsort 17 ex1 = None.
 Proof. exact ex1_too_small. Qed.
+
+(* clocks on both sides of 2^63 are ordered as uint64 (the loader would refuse such a stream anyway) *)
+Example C16_ex_uint64 : pre 6 ex2 /\
+  winsort 6 ex2 = Some [Pl (B63 - 2) 0; Pl (B63 - 1) 3; Pl (B63 + 1) 4; Pl (B63 + 3) 1; Rs (B63 + 4) 2; Re (B63 + 4) 5]
+  /\ loader_accepts ex2 = false.
+Proof. exact ex2_sorts. Qed.
 
 (* ---- outside the precondition (not demanded by the property, recorded as behaviour of the model):
    exit 0 with an unsorted stream when a body event is later than its OU], when an event outside any
